@@ -446,6 +446,8 @@ pub fn run(ctx: &Ctx) -> Report {
         "isstd_and_isut",
         "overlapping_designations",
         "file_with_transition_to_type_index_128_or_more",
+        "transition_at_i32_min",
+        "transition_at_i32_max",
         "file_with_256_types",
         "designation_table_longer_than_256",
         "designation_ends_after_octet_255",
@@ -500,6 +502,17 @@ pub fn run(ctx: &Ctx) -> Report {
                 if z.rule.is_some() {
                     z.rule = None;
                 }
+            }
+        }
+        if i % 5 == 0 && z.transitions.len() >= 2 && z.rule.is_none() {
+            // the ends of the 32-bit range are ordinary transition times of a version-1 file
+            if i % 10 == 0 && z.transitions[1].0 > i32::MIN as i64 {
+                z.transitions[0].0 = i32::MIN as i64;
+                l.class("transition_at_i32_min");
+            } else if z.transitions[z.transitions.len() - 2].0 < i32::MAX as i64 {
+                let k = z.transitions.len() - 1;
+                z.transitions[k].0 = i32::MAX as i64;
+                l.class("transition_at_i32_max");
             }
         }
         if i % 11 == 3 {
